@@ -315,8 +315,15 @@ def mod_map(items, info, env):
         nm = comp.name
         if not isinstance(nm, str):
             continue
+        first = None
+        content = getattr(comp, 'content', None)
+        if content is not None and getattr(content, 'items', None):
+            f0 = content.items[0]
+            first = getattr(f0, 'name', None) if isinstance(getattr(f0, 'name', None), str) else None
         for it in items:
             if it.kind == 'struct' and RO.one(it.name) == pascal(nm) and isinstance(it.name, str):
+                if first is not None and it.fields and RO.one(O.attr_get(it.fields[0][0], 'rename')) != first:
+                    continue        # a same-named component of another namespace
                 mod_of_uri[uri] = RO.one(it.module) if it.module is not None else None
                 break
     out = {}
@@ -324,6 +331,9 @@ def mod_map(items, info, env):
         for p, u in sch.prefixes.items():
             if u in mod_of_uri:
                 out[p] = mod_of_uri[u]
+        d = getattr(sch, 'default_ns', None)
+        if d is not None and d in mod_of_uri:
+            out[None] = mod_of_uri[d]
     return out, mod_of_uri
 
 
@@ -801,6 +811,34 @@ def c08(tier):
                   'sequence, sequence+choice, attributes inside xs:extension, attributes on the base. Outside: depth > 2, complexContent/restriction.' % ('all 24' if tier == 'thorough' else '6'))
 
 
+def references_resolve(items):
+    """every `module::Type` a field mentions names a declared module and a struct / alias defined in it"""
+    out = []
+    mods = {RO.one(it.name) for it in items if it.kind == 'mod'}
+    defs = set()
+    for it in items:
+        if it.kind == 'struct':
+            defs.add((RO.one(it.module), RO.one(it.name)))
+        elif it.kind == 'alias':
+            mm = re.match(r'\s*pub type (\w+) =', RO.one(it.text))
+            if mm:
+                defs.add((RO.one(it.module), mm.group(1)))
+    for it in items:
+        if it.kind != 'struct':
+            continue
+        for fa, fd in it.fields:
+            t = RO.one(fd)[1]
+            inner = re.sub(r'^(?:Option|Vec)<(.*)>$', r'\1', t)
+            mm = re.match(r'(\w+)::(\w+)$', inner)
+            if mm and mm.group(1) not in ('reqwest', 'std', 'error', 'restrictions', 'multi_ref'):
+                ok = mm.group(1) in mods and (mm.group(1), mm.group(2)) in defs
+                elsewhere = any(d[1] == mm.group(2) for d in defs)
+                kind = ('module-undeclared' if mm.group(1) not in mods else 'type-not-in-module') + ('/type-defined-in-another-module' if elsewhere else '/type-undefined')
+                out.append(O.Check('reference-resolves', '%s.%s: type %s must name a declared module and a type defined in it' % (RO.one(it.name), RO.one(fd)[0], t), ok,
+                                   cls=lambda p, kind=kind: kind))
+    return out
+
+
 # ================================================================================================ C09
 
 def struct_by_member(items, member_rename, name=None):
@@ -837,6 +875,36 @@ def qname_oracle(env, items, info, m):
             exp = env.map(lambda q: ('x1', 'extra') if q.startswith('t:') else ('x2', 'y2', 'extra'), info.bref)
             out.append(O.Check('base-ref-namespace', 'Special must inherit the members of the Thing of the namespace bound to the prefix used in base=', RO.sym_eq(names, exp, env.allowed)))
         return out
+    if getattr(info, 'three', False):
+        mods = {}
+        for pfx, mem in (('a', 'a_only'), ('b', 'b_only'), ('c', 'c_only')):
+            st = struct_by_member(items, mem, 'Base')
+            out.append(O.Check('both-components-emitted', 'Base of namespace %s is emitted' % pfx, st is not None))
+            mods[pfx] = RO.one(st.module) if st is not None else None
+        ders = O.find_structs(items, 'Derived', env.allowed)
+        out.append(O.Check('struct-exactly-once', 'Derived emitted once (found %d)' % len(ders), len(ders) == 1))
+        if len(ders) == 1:
+            names = tuple(RO.one(O.attr_get(fa, 'rename')) for fa, fd in ders[0].fields)
+            exp = env.map(lambda q: (q[0] + '_only', 'own'), info.bref)
+            out.append(O.Check('base-ref-namespace', 'Derived must inherit the members of the Base of the namespace its base= prefix denotes; got %s' % (names,), RO.sym_eq(names, exp, env.allowed)))
+        us = O.find_structs(items, 'User', env.allowed)
+        if len(us) == 1 and us[0].fields:
+            ftype = smap(lambda t: t[1], us[0].fields[0][1])
+            exp = env.map(lambda q: '%s::Base' % mods[q[0]], info.bref)
+            out.append(O.Check('type-ref-namespace', 'User.u must name the Base of the namespace its type= prefix denotes', RO.sym_eq(ftype, exp, env.allowed)))
+        return out + references_resolve(items)
+    if getattr(info, 'nested', False):
+        ia = struct_by_member(items, 'ia', 'Item')
+        ib = struct_by_member(items, 'ib', 'Item')
+        out.append(O.Check('both-components-emitted', 'both Items are emitted', ia is not None and ib is not None))
+        ords = O.find_structs(items, 'Order', env.allowed)
+        out.append(O.Check('struct-exactly-once', 'Order emitted once (found %d)' % len(ords), len(ords) == 1))
+        if ia is not None and ib is not None and len(ords) == 1:
+            ft = {RO.one(fd)[0]: RO.one(fd)[1] for fa, fd in ords[0].fields}
+            out.append(O.Check('nested-prefix-own-namespace', 'Order.own (tns:Item, tns bound on the complexType) must be %s::Item, is %s' % (RO.one(ia.module), ft.get('own')), ft.get('own') == '%s::Item' % RO.one(ia.module)))
+            out.append(O.Check('nested-prefix-other-namespace', 'Order.other (b:Item) must be %s::Item, is %s' % (RO.one(ib.module), ft.get('other')), ft.get('other') == '%s::Item' % RO.one(ib.module)))
+            out.append(O.Check('nested-prefix-ref', 'Order.note (ref tns:Note) must be %s::Note, is %s' % (RO.one(ia.module), ft.get('note')), ft.get('note') == '%s::Note' % RO.one(ia.module)))
+        return out + references_resolve(items)
     if getattr(info, 'default', False):
         a1 = struct_by_member(items, 'host', 'Address')
         a2 = struct_by_member(items, 'street', 'Address')
@@ -872,7 +940,7 @@ def qname_oracle(env, items, info, m):
 def c09(tier):
     def body(s):
         s.functions.update(n for n in s.ctx.bodies if re.search(r'find_node_by_xml_name|try_to_find_node|resolve_type|split_type|as_rust_type|add_namespace_reference|collect_namespaces', n))
-        for sc, info in [F.q_types(tier), F.q_rebind(tier), F.q_default(tier)]:
+        for sc, info in [F.q_types(tier), F.q_rebind(tier), F.q_default(tier), F.q_three(tier), F.q_nested(tier)]:
             scenario_check(s, sc, info, qname_oracle, classify=lambda c, p, i: ','.join('%s=%s' % (k, v) for k, v in sorted(p.items()) if k != 'order'))
     return run_e2('C09', tier, body, bounds='two namespaces in two files defining complexTypes with the same local name; type= and base= references whose prefix is symbolic; '
                   'declaration order symbolic (3 or all 6 orders); one prefix bound to different namespaces in different files. Outside: element ref= / message part collisions '
@@ -895,7 +963,6 @@ def uri_class(u1, u2):
 
 def namespace_oracle(env, items, info, m):
     out = []
-    ua, ub = env.v(info.ua), env.v(info.ub)
     # on every path the URIs that reach the output have been concretised by the reader (abbreviation forks on them)
     pairs = []       # (prefix, uri, where)
     mods = {}        # module -> set of own-namespace URIs of its structs
@@ -912,7 +979,7 @@ def namespace_oracle(env, items, info, m):
     by_prefix = {}
     by_uri = {}
     where = {}
-    file_of = {'InA': 'a.xsd', 'InB': 'b.xsd'}
+    file_of = getattr(info, 'file_of', {'InA': 'a.xsd', 'InB': 'b.xsd'})
     for p, u, w in pairs:
         by_prefix.setdefault(p, set()).add(u)
         by_uri.setdefault(u, set()).add(p)
@@ -943,7 +1010,7 @@ def namespace_oracle(env, items, info, m):
     out.append(O.Check('module-declared-once', 'a module is declared twice: %s' % sorted(n for n in set(names) if names.count(n) > 1), len(names) == len(set(names)),
                        cls=lambda params: 'assigned-in-different-files'))
     # both components exist, each inside the module of its own namespace
-    for nm in (('InA',) if getattr(info, 'single', False) else ('InA', 'InB')):
+    for nm in getattr(info, 'expect_structs', (('InA',) if getattr(info, 'single', False) else ('InA', 'InB'))):
         sts = O.find_structs(items, nm, env.allowed)
         out.append(O.Check('struct-exactly-once', '%s emitted once (found %d)' % (nm, len(sts)), len(sts) == 1))
     # field prefixes are declared somewhere with a URI
@@ -953,13 +1020,26 @@ def namespace_oracle(env, items, info, m):
                 p = RO.one(O.attr_get(fa, 'prefix'))
                 if p is not None and p != 'soapenv':
                     out.append(O.Check('field-prefix-declared', '%s.%s uses prefix %r which no namespaces map declares' % (RO.one(it.name), RO.one(fd)[0], p), p in by_prefix))
-    return out
+    if getattr(info, 'shared', None):
+        cs = O.find_structs(items, 'CustomerType', env.allowed)
+        os_ = O.find_structs(items, 'OrderType', env.allowed)
+        if len(cs) == 1 and len(os_) == 1:
+            out.append(O.Check('shared-namespace-one-module', 'CustomerType (module %s) and OrderType (module %s) share a target namespace and belong in its single module' % (RO.one(cs[0].module), RO.one(os_[0].module)),
+                               RO.one(cs[0].module) == RO.one(os_[0].module) and RO.one(cs[0].module) is not None))
+    return out + references_resolve(items)
 
 
 def c10(tier):
     def body(s):
         s.functions.update(n for n in s.ctx.bodies if re.search(r'add_namespace_reference|switch_to_target_namespace|make_abbreviated_namespace|::extend|extend_no_duplicates|collect_namespaces|create_mod_name', n))
-        for sc, info in (F.n_namespaces(tier), F.n_within(tier)):
+        xr_sc, xr_info = F.s_xref(tier)
+        xr_info.file_of = {'Person': 'a.xsd', 'Remote': 'b.xsd'}
+        xr_info.expect_structs = ('Person', 'Remote')
+        shared = F.n_shared(tier)
+        for sc_, info_ in shared:
+            info_.file_of = {'CustomerType': 'customer.xsd', 'OrderType': 'order.xsd', 'Basket': 'main.xsd'}
+            info_.expect_structs = ('CustomerType', 'OrderType', 'Basket')
+        for sc, info in [F.n_namespaces(tier), F.n_within(tier), (xr_sc, xr_info)] + shared:
             scenario_check(s, sc, info, namespace_oracle, classify=lambda c, p, i: (c.cls(p) if c.cls else ''))
     return run_e2('C10', tier, body, bounds='four namespace URIs (target of the start file, referenced-only root xmlns, target of an imported file, nested xmlns in the imported file), each symbolic over '
                   '%d adversarial URIs (equal last segments, equal three-letter abbreviations, dots, dashes, trailing slash, URN, equal URIs). Outside: more than 4 namespaces, the 255-collision abort (C13).' % (8 if tier == 'thorough' else 5))
@@ -975,6 +1055,9 @@ def annotation_oracle(env, items, info, m):
         sch = info.schemas[fn]
         name = pascal(ct.name)
         cands = O.find_structs(items, name, env.allowed)
+        want_mod = mod_map(items, info, env)[1].get(sch.tns) if isinstance(sch.tns, str) else None
+        if len(cands) > 1 and want_mod is not None:
+            cands = [c_ for c_ in cands if RO.one(c_.module) == want_mod]
         if len(cands) != 1:
             out.append(O.Check('struct-exactly-once', '%s emitted once (found %d)' % (ct.name, len(cands)), False))
             continue
@@ -1001,6 +1084,7 @@ def annotation_oracle(env, items, info, m):
                 continue
             p = O.attr_get(fa, 'prefix')
             what = '%s field #%d (%s)' % (ct.name, i, RO.one(e['rename']))
+            out.append(O.Check('member-rename', what + ': rename = declared XML name (is %r)' % (RO.one(O.attr_get(fa, 'rename')),), RO.sym_eq(O.attr_get(fa, 'rename'), e['rename'], env.allowed)))
             if e['attr']:
                 out.append(O.Check('attribute-unqualified', what + ': an attribute member must be unqualified (no prefix); has prefix %r' % (RO.one(p),),
                                    RO.sym_eq(p, None, env.allowed)))
@@ -1023,7 +1107,7 @@ def annotation_oracle(env, items, info, m):
 def c03(tier):
     def body(s):
         s.functions.update(n for n in s.ctx.bodies if re.search(r'field::<impl.*write_xml|write_complex_type|write_type_alias|Field.*try_from_node|switch_to_target_namespace|import_extension', n))
-        fams = [F.s_seq(tier)[1], F.s_xns(tier), F.s_ref_anon_fwd(tier), F.x_cross(tier), F.x_chain(tier), F.s_xref(tier), F.x_cross3(tier)]
+        fams = [F.s_seq(tier)[1], F.s_xns(tier), F.s_ref_anon_fwd(tier), F.x_cross(tier), F.x_chain(tier), F.s_xref(tier), F.x_cross3(tier), F.q_default(tier)]
         for sc, info in fams:
             if not hasattr(info, 'bases'):
                 info.bases = {}
@@ -1151,6 +1235,14 @@ def envelope_checks(env, items, info, op, envst, tag, direction, struct_named, f
             got = sorted(RO.one(O.attr_get(fa, 'rename')) for fa, fd in hs.fields)
             out.append(O.Check('header-element-qname', '%s: every Header member is renamed to the element its part references (renames %s, elements %s)' % (tag, got, sorted(op['headers'])),
                                got == sorted(op['headers'])))
+            hns = getattr(info, 'headers_ns', None)
+            if hns:
+                nsmap = dict(RO.one(O.attr_get(hs.attrs, 'namespaces')) or ())
+                for fa, fd in hs.fields:
+                    rn = RO.one(O.attr_get(fa, 'rename'))
+                    pfx = RO.one(O.attr_get(fa, 'prefix'))
+                    out.append(O.Check('header-element-namespace', '%s: header %s must be qualified with the namespace of its element (%s); prefix %r is bound to %s' % (tag, rn, hns.get(rn), pfx, nsmap.get(pfx)),
+                                       nsmap.get(pfx) == hns.get(rn)))
             for fa, fd in hs.fields:
                 t = RO.one(fd)[1]
                 mm = re.match(r'Option<(?:(\w+)::)?(\w+)>$', t)
@@ -1162,7 +1254,7 @@ def envelope_checks(env, items, info, op, envst, tag, direction, struct_named, f
 def c05(tier):
     def body(s):
         s.functions.update(n for n in s.ctx.bodies if re.search(r'Soap(Binding|Service|Port|Message|Operation)|read_(soap|body|header|port)|map_to_rust_node|write_soap|write_async', n) and '::tests::' not in n)
-        fams = [F.w_ops(tier, 0), F.w_ops(tier, 1), F.w_ops(tier, 2)]
+        fams = [F.w_ops(tier, 0), F.w_ops(tier, 1), F.w_ops(tier, 2)] + F.w_hdr_xns(tier)
         for sc, info in fams:
             def oracle(env, items, info, m, _sc=sc):
                 lines = getattr(env, 'lines', None)
@@ -1172,3 +1264,309 @@ def c05(tier):
                   'element name, parts= present/absent (single-part message), output present/absent, service name, 0..2 bound header parts. Identifier agreement between the method signature, '
                   'the envelope, Body and Header structs and the element structs is decided per path by z3. Outside: the serialized envelope (yaserde at run time), rpc/encoded bindings, '
                   'multi-part bodies without parts=.' % (5 if tier == 'thorough' else 4))
+
+
+# ================================================================================================ C16 / C07(c): the async helper
+
+from interp import Coro, Opaque, RString, NONE, SOME, OK, ERR
+
+
+def soap_helper_paths(ctx, wrapper=False):
+    """explores the coroutine MIR of helpers::send_soap_request_using_client (or the send_soap_request wrapper) over
+    event-recording stubs whose outcomes are symbolic. Returns (results, names of the symbolic outcomes)."""
+    B = z3.Bool
+    names = ['credentials', 'check_ok', 'ser_ok', 'send_ok', 'status_4xx_5xx', 'text_ok', 'de_ok']
+
+    def entry(m):
+        polls = {'send': 0, 'text': 0}
+
+        def hook(mm, c0, args):
+            c = c0
+            if c.endswith('as CheckRestrictions>::check_restrictions'):
+                mm.events.append(('check',))
+                return OK(()) if mm.branch(B('check_ok')) else ERR(Adt('SoapError', ENUMS['SoapError'].index('Restriction'), [RString('facet violated')]))
+            if c.startswith('yaserde::ser::to_string'):
+                mm.events.append(('serialize',))
+                return OK(RString('<serialized-request/>')) if mm.branch(B('ser_ok')) else ERR(RString('ser error'))
+            if c.startswith('reqwest::Client::new'):
+                mm.events.append(('client_new',))
+                return Opaque('reqwest::Client', 'fresh')
+            if c.startswith('reqwest::Client::post'):
+                mm.events.append(('post', as_str(args[1])))
+                return Opaque('RequestBuilder', {})
+            if c.startswith('reqwest::RequestBuilder::body'):
+                mm.events.append(('body', as_str(args[1])))
+                return args[0]
+            if c.startswith('reqwest::RequestBuilder::basic_auth'):
+                mm.events.append(('basic_auth', as_str(args[1]), as_str(deref(args[2]).fields[0]) if deref(args[2]).variant == 1 else None))
+                return args[0]
+            if c.startswith('reqwest::RequestBuilder::send'):
+                mm.events.append(('send',))
+                return Opaque('Pending')
+            if c.endswith('as Future>::poll') and ('Pending as Future' in c or 'Response::text' in c):
+                which = 'send' if 'Pending as Future' in c else 'text'
+                if polls[which] < 1 and mm.branch(B('pending_%s' % which)):
+                    polls[which] += 1
+                    return Adt('Poll', 1, [])
+                if which == 'send':
+                    return Adt('Poll', 0, [OK(Opaque('Response')) if mm.branch(B('send_ok')) else ERR(Opaque('reqwest::Error', 'transport'))])
+                return Adt('Poll', 0, [OK(RString('<response-body/>')) if mm.branch(B('text_ok')) else ERR(Opaque('reqwest::Error', 'body'))])
+            if c.startswith('reqwest::Response::error_for_status_ref'):
+                mm.events.append(('status_check',))
+                return OK(args[0]) if mm.branch(z3.Not(B('status_4xx_5xx'))) else ERR(Opaque('reqwest::Error', 'status'))
+            if c.startswith('reqwest::Response::error_for_status'):
+                mm.events.append(('status_check',))
+                return OK(deref(args[0])) if mm.branch(z3.Not(B('status_4xx_5xx'))) else ERR(Opaque('reqwest::Error', 'status'))
+            if c.startswith('reqwest::Response::text'):
+                return Opaque('TextFuture')
+            if c.startswith('yaserde::de::from_str'):
+                mm.events.append(('deserialize', as_str(args[0])))
+                return OK(Opaque('ResponseEnvelope')) if mm.branch(B('de_ok')) else ERR(RString('de error'))
+            return NotImplemented
+        m.hooks.append(hook)
+        creds = SOME([RString('user'), RString('secret')]) if m.branch(B('credentials')) else NONE()
+        if wrapper:
+            coro = m.call('send_soap_request', ['http://svc/endpoint', creds, Opaque('RequestEnvelope')])
+            body = [b for n, b in m.b.items() if n == 'send_soap_request::{closure#0}' or n.endswith('::send_soap_request::{closure#0}')][0]
+        else:
+            coro = m.call('send_soap_request_using_client', [Ref([Opaque('reqwest::Client', 'given')], 0), 'http://svc/endpoint', creds, Opaque('RequestEnvelope')])
+            body = [b for n, b in m.b.items() if n == 'send_soap_request_using_client::{closure#0}' or n.endswith('::send_soap_request_using_client::{closure#0}')][0]
+        for _ in range(6):
+            r = m.run(body, [[Ref([coro], 0)], Ref([Opaque('Context')], 0)])
+            if r.variant == 0:
+                return r.fields[0]
+        return 'still pending'
+    res = explore(lambda: H.machine(ctx), entry)
+    return res, names
+
+
+def helper_obligations(m, out, names):
+    """list of (key, what) violated on this path; the path condition fixes every stub outcome that was consulted"""
+    val = {}
+    for c in m.pc:
+        t = str(c)
+        if t.startswith('Not(') and t.endswith(')'):
+            val[t[4:-1]] = False
+        else:
+            val[t] = True
+    ev = m.events
+    bad = []
+    if out[0] != 'ok':
+        return [('helper/' + out[0], 'the helper ends in %s: %s' % (out[0], out[1]))], val
+    r = out[1]
+    if r == 'still pending':
+        return [('helper/never-ready', 'the future is still pending after every awaited future became ready')], val
+    is_ok = isinstance(r, Adt) and r.name == 'Result' and r.variant == 0
+    kinds = [e[0] for e in ev if e[0] != 'client_new']     # building a reqwest::Client opens no connection
+    sends = kinds.count('send')
+    posts = [e for e in ev if e[0] == 'post']
+    check_ok = val.get('check_ok')
+    ser_ok = val.get('ser_ok')
+    if not kinds or kinds[0] != 'check':
+        bad.append(('helper/check-first', 'the restriction check is not the first thing the helper does: events %s' % kinds))
+    if check_ok is False:
+        if any(k in ('post', 'send', 'serialize', 'body') for k in kinds):
+            bad.append(('helper/io-after-failed-check', 'a failed restriction check is followed by %s' % kinds))
+        e = deref(r.fields[0]) if isinstance(r, Adt) and r.variant == 1 else None
+        if is_ok or not (isinstance(e, Adt) and e.name == 'SoapError' and ENUMS['SoapError'][e.variant] == 'Restriction'):
+            bad.append(('helper/restriction-error-returned', 'a failed restriction check must be returned as the restriction error; got %r' % (r,)))
+    want_send = 1 if (check_ok and ser_ok) else 0
+    if sends != want_send or len(posts) != want_send:
+        bad.append(('helper/one-post-per-call', 'expected %d POST, saw post=%d send=%d (events %s)' % (want_send, len(posts), sends, kinds)))
+    if want_send == 1:
+        if posts and posts[0][1] != 'http://svc/endpoint':
+            bad.append(('helper/post-to-service-address', 'POST goes to %r' % (posts[0][1],)))
+        bodies = [e for e in ev if e[0] == 'body']
+        if len(bodies) != 1 or bodies[0][1] != '<serialized-request/>':
+            bad.append(('helper/body-is-serialization', 'request body is %r' % (bodies,)))
+        auth = [e for e in ev if e[0] == 'basic_auth']
+        if (len(auth) == 1) != bool(val.get('credentials')):
+            bad.append(('helper/basic-auth-iff-credentials', 'credentials=%s but basic_auth events %s' % (val.get('credentials'), auth)))
+        if auth and (auth[0][1] != 'user' or auth[0][2] != 'secret'):
+            bad.append(('helper/basic-auth-values', 'basic_auth called with %r' % (auth[0],)))
+        if kinds.index('send') < max([i for i, k in enumerate(kinds) if k in ('body', 'basic_auth', 'post')] + [0]):
+            bad.append(('helper/send-after-build', 'send happens before the request is complete: %s' % kinds))
+    all_ok = bool(check_ok) and bool(ser_ok) and bool(val.get('send_ok')) and val.get('status_4xx_5xx') is False and bool(val.get('text_ok')) and bool(val.get('de_ok'))
+    if is_ok != all_ok:
+        bad.append(('helper/ok-iff-every-stage-ok', 'result is %s but stage outcomes are %s' % ('Ok' if is_ok else 'Err', {k: val.get(k) for k in names})))
+    if is_ok and not (isinstance(deref(r.fields[0]), Opaque) and deref(r.fields[0]).kind == 'ResponseEnvelope'):
+        bad.append(('helper/value-is-deserialized-reply', 'Ok value is %r' % (r.fields[0],)))
+    if val.get('send_ok') and 'status_check' not in kinds and want_send:
+        bad.append(('helper/status-checked', 'the reply status is never checked: %s' % kinds))
+    if 'deserialize' in kinds:
+        d = [e for e in ev if e[0] == 'deserialize'][0]
+        if d[1] != '<response-body/>':
+            bad.append(('helper/deserializes-reply-body', 'from_str is given %r' % (d[1],)))
+        if val.get('status_4xx_5xx') is True:
+            bad.append(('helper/no-parse-of-failed-exchange', 'a 4xx/5xx reply is parsed: %s' % kinds))
+    return bad, val
+
+
+def helper_check(s, prop, keys_filter=None):
+    ctx = s.ctx
+    total = 0
+    for wrapper in (False, True):
+        s.scenarios += 1
+        res, names = soap_helper_paths(ctx, wrapper)
+        s.count(res)
+        if len(res) > 1:
+            s.nontrivial += 1
+        nviol = 0
+        for m, out in res:
+            bad, val = helper_obligations(m, out, names)
+            for key, what in bad:
+                if keys_filter and not keys_filter(key):
+                    continue
+                nviol += 1
+                key2 = key + ('/wrapper' if wrapper else '')
+                rdir = save_replay(prop, re.sub(r'\W+', '_', key2), {'finding.txt': '%s\n%s\nstub outcomes: %s\nevents: %s\n' % (key2, what, val, m.events)})
+                # the stubs stand for reqwest/yaserde: there is no native replay of a stub scenario; the obligation is read off the path
+                s.rep.violation(key2, what + ' [stub outcomes %s]' % ({k: v for k, v in val.items()},), rdir)
+        s.samples.append(dict(function='send_soap_request' if wrapper else 'send_soap_request_using_client', paths=len(res), violations=nviol,
+                              symbolic='credentials present; result of check_restrictions, to_string, send, status class, text, from_str; 0..1 Pending polls of send and text',
+                              example_events=[list(map(str, res[0][0].events))] if res else []))
+        total += len(res)
+    return total
+
+
+def emitted_method_bodies_oracle(env, items, info, m):
+    """generated client methods hand the client, the address, the credentials and the request to the helper"""
+    out = []
+    lines = env.lines
+    texts = [RO.one(l) for l in lines]
+    for i, t in enumerate(texts):
+        if isinstance(t, str) and re.match(r'\s*pub async fn \S+\(&self, req: ', t):
+            bodytxt = ' '.join(x.strip() for x in texts[i + 1:i + 4] if isinstance(x, str))
+            ok = ('helpers::send_soap_request_using_client(&self.client, &self.location, credentials, req).await' in bodytxt
+                  and 'let credentials = self.credentials.as_ref().map(|(u, p)| (u.as_str(), p.as_str()));' in bodytxt)
+            out.append(O.Check('method-forwards-client-location-credentials-request', 'client method body: %s' % bodytxt[:160], ok))
+    n = len(out)
+    out.append(O.Check('methods-found', 'client methods found in the output (%d)' % n, n >= 1))
+    return out
+
+
+def c16(tier):
+    def body(s):
+        s.functions.update(n for n in s.ctx.bodies if 'send_soap_request' in n or 'write_async_soap_call' in n or 'write_soap_action' in n)
+        helper_check(s, 'C16')
+        sc, info = F.w_ops(tier, 0)
+        scenario_check(s, sc, info, emitted_method_bodies_oracle, classify=lambda c, p, i: '')
+    return run_e2('C16', tier, body, level='other',
+                  bounds='all outcomes of the stubbed stages (check, serialize, send, status class, body text, deserialize), credentials present/absent, 0..1 Pending poll per awaited future, '
+                         'for both helpers (with a given client / with a fresh client); generated method bodies over the W-ops family.',
+                  explanation='Claimed for the zeep-side logic only. The coroutine MIR of helpers::send_soap_request_using_client and send_soap_request is executed symbolically over '
+                              'event-recording stubs of reqwest and yaserde whose results are symbolic (z3 Booleans) and constrained by their documented contracts '
+                              '(error_for_status_ref is Err iff the status is 4xx/5xx). On every path: exactly one post+send iff the restriction check and the serialization succeeded, to the '
+                              'given address, body = the serialization, basic_auth iff credentials (with those values), Ok only if every stage succeeded and the status is not 4xx/5xx, the Ok '
+                              'value is what from_str returned for the reply body, no parse of a failed exchange. That one send() is one HTTP POST on the wire, redirects, TLS and transport '
+                              'behaviour are reqwest\'s and trusted.',
+                  extra_assumptions=['reqwest / yaserde are nondeterministic stubs with contract-constrained results; no native replay exists for stub scenarios'])
+
+
+# ================================================================================================ C07
+
+def parse_restriction_ctor(body_lines):
+    """lines of an impl_check body -> (dict facet->value text, tuple of enumeration values) or None when no constructor"""
+    txt = [RO.one(l) if not isinstance(l, str) else l for l in body_lines]
+    if not any('restrictions::Restrictions {' in t for t in txt):
+        return None
+    return True
+
+
+def facet_oracle(env, items, info, m):
+    out = []
+    impl = [it for it in items if it.kind == 'impl_check' and RO.one(it.name) == 'Code']
+    out.append(O.Check('restricted-type-has-check', 'the restricted simple type has a check_restrictions impl (found %d)' % len(impl), len(impl) == 1))
+    if len(impl) != 1:
+        return out
+    body = impl[0].body
+    got = {}
+    enums = []
+    in_enum = False
+    extra = []
+    for l in body:
+        t = RO.one(l)
+        mm = re.match(r'\s*(\w+): Some\((.*)\),\s*$', t if isinstance(t, str) else '')
+        if mm and mm.group(1) != 'enumeration':
+            got[mm.group(1)] = smap(lambda s_: re.match(r'\s*(\w+): Some\((.*)\),\s*$', s_).group(2), l)
+            continue
+        if isinstance(t, str) and 'enumeration: Some(vec![' in t:
+            in_enum = True
+            continue
+        if in_enum:
+            me = re.match(r'\s*"(.*)"\.to_string\(\),\s*$', t)
+            if me:
+                enums.append(smap(lambda s_: re.match(r'\s*"(.*)"\.to_string\(\),\s*$', s_).group(1), l))
+                continue
+            if t.strip().startswith(']'):
+                in_enum = False
+                continue
+    for f, sel in info.facets.items():
+        rf = F.RUST_FACET[f]
+        want = env.v(sel)
+        if rf in got:
+            ok = RO.sym_eq(got[rf], want, env.allowed)           # value equal (and the facet is declared)
+            ok = smap(lambda a, b: a == b and b != F.ABSENT, got[rf], want, allowed=env.allowed)
+            out.append(O.Check('facet-value', 'facet %s: the emitted constructor must carry the declared value' % f, ok, cls=lambda p, f=f: f))
+        else:
+            ok = smap(lambda b: b == F.ABSENT, want, allowed=env.allowed)
+            out.append(O.Check('facet-declared-but-not-emitted', 'facet %s is declared but the emitted constructor does not set it' % f, ok, cls=lambda p, f=f: f))
+    for k in got:
+        if k not in F.RUST_FACET.values():
+            out.append(O.Check('facet-undeclared', 'the constructor sets %s which the schema does not declare / zeep does not support' % k, False))
+    n = env.v(info.nenum)
+    out.append(O.Check('enumeration-count', 'enumeration: %d values emitted' % len(enums), smap(lambda k: k == len(enums), n, allowed=env.allowed)))
+    want_vals = ['A', 'b c']
+    for i, e in enumerate(enums[:2]):
+        out.append(O.Check('enumeration-value', 'enumeration value #%d' % i, RO.sym_eq(e, want_vals[i], env.allowed)))
+    out += delegation_checks(env, items)
+    return out
+
+
+def delegation_checks(env, items):
+    """every struct has a check_restrictions impl that delegates to each of its fields exactly once and propagates Err"""
+    out = []
+    impls = {}
+    for it in items:
+        if it.kind == 'impl_check':
+            impls.setdefault((RO.one(it.module), RO.one(it.name)), []).append(it)
+    for st in items:
+        if st.kind != 'struct' or not st.fields:
+            continue
+        if any(RO.one(fd)[0] in ('client',) for fa, fd in st.fields):
+            continue        # the service client struct is not a message type
+        key = (RO.one(st.module), RO.one(st.name))
+        im = impls.get(key, [])
+        out.append(O.Check('struct-has-check', 'struct %s has exactly one check_restrictions impl (found %d)' % (key[1], len(im)), len(im) == 1, cls=lambda p: ''))
+        if len(im) != 1:
+            continue
+        body = [RO.one(l) for l in im[0].body]
+        fields = [RO.one(fd)[0] for fa, fd in st.fields]
+        is_alias = fields == ['value']
+        for f in fields:
+            calls = [t for t in body if re.search(r'\bself\.%s\.check_restrictions\(' % re.escape(f), t)]
+            propagates = [t for t in calls if t.rstrip().endswith('?;') or not t.rstrip().endswith(';')]
+            out.append(O.Check('field-delegation', '%s: field %s must be checked exactly once and its error propagated (calls: %s)' % (key[1], f, [c.strip() for c in calls]),
+                               len(calls) == 1 and len(propagates) == 1, cls=lambda p: ''))
+        tail = [t.strip() for t in body if t.strip() and not t.strip().startswith('}')]
+        ends_ok = bool(tail) and (tail[-1] == 'Ok(())' or re.search(r'\.check_restrictions\(.*\)$', tail[-1]) is not None)
+        out.append(O.Check('check-returns-result', '%s: the check ends by returning Ok(()) or the last delegation (%r)' % (key[1], tail[-1:] or None), ends_ok, cls=lambda p: ''))
+    return out
+
+
+def c07(tier):
+    def body(s):
+        s.functions.update(n for n in s.ctx.bodies if re.search(r'build_restrictions|get_restriction_from|restrictions::<impl.*write_xml|write_check_restrictions|write_complex_type|write_type_alias|write_soap_operation|send_soap_request', n))
+        for sc, info in (F.r_facets(tier, False, 'num'), F.r_facets(tier, False, 'len'), F.r_facets(tier, True, 'num'), F.r_facets(tier, True, 'len')):
+            scenario_check(s, sc, info, facet_oracle, classify=lambda c, p, i: (c.cls(p) if c.cls else ''))
+        # per-struct / per-envelope delegation on WSDL outputs (headers + body)
+        for sc, info in (F.w_ops(tier, 2),):
+            scenario_check(s, sc, info, lambda env, items, info_, m: delegation_checks(env, items), classify=lambda c, p, i: '')
+        # ordering: the check precedes serialization and any I/O, its error is returned
+        helper_check(s, 'C07', keys_filter=lambda k: k in ('helper/check-first', 'helper/io-after-failed-check', 'helper/restriction-error-returned', 'helper/panic', 'helper/diverge'))
+    return run_e2('C07', tier, body,
+                  bounds='(b) restricted simple type with each of the 7 supported facets absent or one of 3-4 values (negative, i32 extremes), as child elements or as attributes of xs:restriction, '
+                         '0..2 enumeration values, three unsupported facets present; base over string/int/long; holder type using it as required / optional / repeated member; every struct and '
+                         'envelope (2 header parts) must delegate to each field once. (c) coroutine MIR of both helpers over symbolic stub outcomes. Outside: executing the generated checks on values '
+                         '(facet semantics themselves are C06; a simple type derived from a restricted simple type is a known limitation, see DESIGN).',
+                  extra_assumptions=['value-level evaluation of generated check_restrictions code (obligation (a) of the design) is not part of the quick tier'])
